@@ -57,10 +57,21 @@ POOL_D = {p[0]: p for p in POOL}
 _routes = {}
 
 
+class ViaTransformer:
+    """Proj-like callable on top of a Transformer (lon/lat -> projection, inverse=True for the other way)."""
+
+    def __init__(self, t):
+        self.t = t
+
+    def __call__(self, a, b, inverse=False):
+        return self.t.transform(a, b, direction=INV) if inverse else self.t.transform(a, b)
+
+
 def routes(crs_def):
     """The PROJ routes the code uses, built here from pyproj alone, and the reference geodetic inverse.
-    T: Transformer(geodetic CRS of the area CRS, Greenwich, no datum shift -> CRS)   (get_lonlats, _invproj, Proj_MP)
-    P: Proj(CRS)                                                                      (colrow2lonlat, get_*_from_* family)
+    T: Transformer(geodetic CRS of the area CRS, Greenwich, no datum shift -> CRS), INVERSE   (get_lonlats, _invproj, Proj_MP)
+    P: the transformer of AreaDefinition._get_lonlat_transformer, same construction as T, both directions
+       (colrow2lonlat and the get_*_from_* family; before fix 9e97bafd this was Proj(crs), which applies +towgs84)
     R: reference for the property text ("geodetic inverse"): Transformer(base geographic CRS, Greenwich -> CRS)."""
     if crs_def in _routes:
         return _routes[crs_def]
@@ -74,7 +85,7 @@ def routes(crs_def):
         return g
     g = greenwich(crs.geodetic_crs)
     T = Transformer.from_crs(g, crs, always_xy=True)
-    P = Proj(crs)
+    P = ViaTransformer(Transformer.from_crs(g, crs, always_xy=True))
     base = crs.source_crs if crs.is_bound else crs
     gb = base.geodetic_crs
     while gb.is_derived and gb.source_crs is not None:
@@ -729,20 +740,6 @@ class Eval:
             return True
 
         f = {k: [] for k in ("get", "colrow", "from_arr", "from_proj", "proj_from", "arr_from", "idx_arr", "idx_sc", "np", "da")}
-        # H_same on the tables: the two inverse routes on the pixel centres
-        if vec_ok:
-            X2, Y2 = np.meshgrid(np.array(xs), np.array(ys))
-            tl, ta = T.transform(X2, Y2, direction=INV)
-            pl_, pa = P(X2, Y2, inverse=True)
-            with np.errstate(all="ignore"):
-                d = ang_deg(tl, ta, pl_, pa)
-            both = np.isfinite(tl) & np.isfinite(ta) & np.isfinite(pl_) & np.isfinite(pa)
-            if both.any() and float(np.nanmax(np.where(both, d, 0))) > 1e-9:
-                i, j = np.unravel_index(np.nanargmax(np.where(both, d, 0)), d.shape)
-                key = "C01.H_same.bound_crs" if self.cls == "bound" else "C01.lonlat.derived_geographic_crs" if self.cls == "derived_geographic" else "C01.H_same." + self.name
-                self.fail(key, "the two inverse-projection routes of the code disagree: Transformer without datum shift (get_lonlats) gives (%.9g, %.9g), "
-                          "Proj(crs) (colrow2lonlat, get_lonlat_from_*) gives (%.9g, %.9g) for pixel (row %d, col %d)" % (tl[i, j], ta[i, j], pl_[i, j], pa[i, j], i, j),
-                          {"row": int(i), "col": int(j), "transformer_route": [float(tl[i, j]), float(ta[i, j])], "proj_route": [float(pl_[i, j]), float(pa[i, j])]})
         # get_lonlats requests
         np_req = da_req = None
         for rq, res in zip(spec["lonlats"], obs["lonlats"]):
@@ -809,6 +806,14 @@ class Eval:
                 if vec_ok:
                     tP(xs[c_], ys[r_])
                     f["colrow"].append("(%d, %d, %s, %s)" % (c_, r_, fhex(cr["value"][0]), fhex(cr["value"][1])))
+        # H_same on the implementation: both single-pixel accessors return the same point
+        for (r_, c_), g, cr in zip(pix, obs.get("get_lonlat", []), obs.get("colrow2lonlat", [])):
+            if "value" in g and "value" in cr and all(math.isfinite(v) for v in g["value"] + cr["value"]) and \
+                    float(ang_deg(g["value"][0], g["value"][1], cr["value"][0], cr["value"][1])) > 1e-9:
+                key = "C01.H_same.bound_crs" if self.cls == "bound" else "C01.lonlat.derived_geographic_crs" if self.cls == "derived_geographic" else "C01.H_same." + self.name
+                self.fail(key, "get_lonlat(%d,%d) = (%.9g, %.9g) but colrow2lonlat(%d,%d) = (%.9g, %.9g): the two inverse-projection routes of the code disagree" % (
+                    r_, c_, g["value"][0], g["value"][1], c_, r_, cr["value"][0], cr["value"][1]),
+                    {"row": r_, "col": c_, "get_lonlat": g["value"], "colrow2lonlat": cr["value"]})
         cra = obs.get("colrow2lonlat_arr")
         if isinstance(cra, list):
             for (r_, c_), lo, la, cr in zip(pix, cra[0]["data"], cra[1]["data"], obs.get("colrow2lonlat", [])):
